@@ -171,7 +171,8 @@ var azEmails = []string{"user@example.com", "user@sub.example.com", "user@evilex
 	"a@example.com@evil.com", "noat.example.com", "u@example.com:8080", "u@[example.com]", "u@example.com:", "",
 	"U@Example.COM", "u@", "@example.com", "u@.example.com", "u@x.evil.com", "bob@corp.io", "u@example.com:*", "u@[::1]:80",
 	"u@*.example.com", "u@*", "*", "@", "a@@example.com", "u@sub.Example.com", "o'hara+tag@example.com", "user@example.com.evil.com",
-	"user@xexample.com", "user@example.comx", "user@a.b.example.com"}
+	"user@xexample.com", "user@example.comx", "user@a.b.example.com", "a@sub.example.com@evil.com", "a@corp.example.com@evil.test", "a@example.com@sub.example.com",
+	"a@sub.example.com@", "@sub.example.com@evil.com"}
 var azDomains = []string{"example.com", ".example.com", "*.example.com", "*", "Example.COM", "", ".", "*.", "com",
 	"example.com:8080", "example.com:*", "[example.com]", "evil.com", "corp.io", ".Example.com", "*.evil.com", ":80", "[::1]:80", "[::1]",
 	"*.example.com:*", "sub.example.com", "b@example.com"}
@@ -262,6 +263,13 @@ func genAzQuery(r *rng, email string, groups []string, sane bool) [][2]string {
 		if r.intn(4) == 0 {
 			items = append(items, "") // empty item
 		}
+		if r.intn(5) == 0 {
+			// blank-but-not-empty item, as in hand-written 'a, b' / 'a, ' lists
+			items = append(items, r.pick([]string{" ", "  ", "\t", " \t "}))
+			if len(items) > 1 && r.bool() {
+				items[0], items[len(items)-1] = items[len(items)-1], items[0]
+			}
+		}
 		q = append(q, [2]string{k, strings.Join(items, ",")})
 	}
 	return q
@@ -303,6 +311,23 @@ func azAO(c *suiteCtx, q [][2]string, email string, groups []string, present boo
 	if !present {
 		c.count("ao:nil-session")
 		return
+	}
+	// independent oracle: a 'true' answer must be explained by the constraints as written in the query
+	plainRules := true
+	for _, d := range azEntities(q, "allowed_email_domains") {
+		if strings.ContainsAny(d, "[]:@") {
+			plainRules = false // a rule that is itself a host form (brackets, port, '@') is parsed as a URL host: operator-side syntax, not judged here
+		}
+	}
+	if got && plainRules && !azAuthOnlyAllowed(q, email, groups) {
+		host, _ := azHost(email)
+		if len(azEntities(q, "allowed_email_domains")) > 0 && strings.ContainsAny(host, "[]:") {
+			c.known("C08", "C08-authonly-domain-host-forms", fmt.Sprintf("auth-only: e-mail %q passes allowed_email_domains=%q because its domain part is parsed as a URL host (brackets / port stripped)", email, azEntities(q, "allowed_email_domains")))
+			c.count("known:authonly-host-forms")
+		} else {
+			c.violation("C08", fmt.Sprintf("authOnlyAuthorize accepts a session (%q, groups %q) that does not satisfy the query constraints", email, groups),
+				map[string]interface{}{"query": rawQuery(q), "email": email, "groups": groups})
+		}
 	}
 	if len(azEntities(q, "allowed_email_domains")) > 0 {
 		if checkAllowedEmailDomains(req, s) {
@@ -361,7 +386,12 @@ func azUnit(c *suiteCtx) {
 		ds := azList(r, azDomains, 6, true)
 		if i%3 == 0 && len(ds) > 0 {
 			// bias towards the boundary: a domain derived from the address itself
-			if h, ok := azHost(e); ok && h != "" {
+			h, ok := azHost(e)
+			if parts := strings.Split(e, "@"); len(parts) > 2 && r.bool() {
+				// a rule derived from ANY '@'-separated component, not only the real (last) domain
+				h, ok = strings.ToLower(parts[1+r.intn(len(parts)-1)]), true
+			}
+			if ok && h != "" {
 				switch r.intn(4) {
 				case 0:
 					ds[0] = h
@@ -595,7 +625,7 @@ func (ru azRules) cfg(dir string, tag string, htpasswd bool) (proxyCfg, []string
 
 var azE2EEmails = []string{"alice@example.com", "alice@sub.example.com", "alice@evilexample.com", "a@b@example.com",
 	"a@example.com@evil.org", "Alice@Example.COM", "alice@example.com.evil.org", "noat.example.com", "alice@.example.com",
-	"o'hara+tag@example.com", "bob@corp.io", "u@[example.com]", "u@example.com:", "alice@xexample.com"}
+	"o'hara+tag@example.com", "bob@corp.io", "u@[example.com]", "u@example.com:", "alice@xexample.com", "a@sub.example.com@evil.org", "a@x.corp.io@evil.org"}
 var azE2EDomains = []string{"example.com", ".example.com", "*.example.com", "Example.COM", "evil.org", "sub.example.com", "com", "corp.io"}
 var azE2EGroups = []string{"dev", "ops", "admins", "g1", "a,b"}
 
